@@ -484,7 +484,7 @@ def eval_scenario(args):
         write_dir(run_d, files)
         events, outcome, _ = fork_run(entry, dbpath, -1, log)
         tmpmap = {}
-        descF, shasF, infosF, jF = ob.directory(run_d, tmpmap)
+        descF, shasF, infosF, jF = ob.directory(run_d, tmpmap, initial=set(files))
         labels, points = interpret(events)
         res.update(labels=labels, final=(outcome, descF), n_events=len(events))
         ck.outcome(outcome)
@@ -507,14 +507,14 @@ def eval_scenario(args):
                 ck.bad("run is not deterministic: event %d not reached again" % ev, klabel)
                 continue
             tmpmap = {}
-            descK, shasK, infosK, jK = ob.directory(run_d, tmpmap)
+            descK, shasK, infosK, jK = ob.directory(run_d, tmpmap, initial=set(files))
             where = "kill at event %d (%s)" % (ev, klabel)
             n_before = len(ck.out)
             ck.crash(where, shasK, infosK, jK)
             kill = {"ev": ev, "done": done, "label": klabel, "desc": descK, "journals": jK}
             if do_restart:
                 _, outR, _ = fork_run(restart_entry, dbpath, -1, log)
-                descR, shasR, infosR, jR = ob.directory(run_d, tmpmap)
+                descR, shasR, infosR, jR = ob.directory(run_d, tmpmap, initial=set(files))
                 ck.restart(where + " + restart", outR, shasR, infosR, jR, shasK)
                 kill["restart"] = (outR, descR)
             for v in ck.out[n_before:]:
